@@ -316,8 +316,16 @@ def symbolic_attractor_test(
     # completed and no unprocessed variables remaining.
     all_done = False
 
+    # If an iteration of the main loop makes no progress at all (the forward
+    # growth was declined by the size heuristic, `avoid` is saturated and no
+    # further variable can be added), the next iteration must accept the
+    # forward growth regardless of the heuristic. Otherwise the loop would
+    # repeat the same iteration forever.
+    force_forward_growth = False
+
     while not all_done:
         all_done = True
+        progress_made = False
 
         # Saturate reach_set with currently selected variables, but only if
         # it's symbolic size is smaller than that of the avoid set (reach set
@@ -342,9 +350,15 @@ def symbolic_attractor_test(
                     all_variables_done = (
                         len(conflict_vars) == 0 and len(other_vars) == 0
                     )
-                    if no_avoid or avoid_is_larger or all_variables_done:
+                    if (
+                        no_avoid
+                        or avoid_is_larger
+                        or all_variables_done
+                        or force_forward_growth
+                    ):
                         reach_set = updated
                         saturation_done = False
+                        progress_made = True
                         if reach_set.symbolic_size() > 100_000 and sd.config["debug"]:
                             print(
                                 f"[{node_id}] > Saturation({len(saturated_vars)}) Incremented forward reach set: {reach_set}"
@@ -367,6 +381,7 @@ def symbolic_attractor_test(
                         all_done = False
                         avoid = avoid.union(predecessors)
                         saturation_done = False
+                        progress_made = True
                         if avoid.symbolic_size() > 100_000 and sd.config["debug"]:
                             print(
                                 f"[{node_id}] > Saturation({len(saturated_vars)}) Incremented backward avoid set: {avoid}"
@@ -425,6 +440,7 @@ def symbolic_attractor_test(
                 continue
 
             all_done = False
+            progress_made = True
 
             reach_set = reach_set.union(can_go_fwd)
             if avoid is not None:
@@ -444,6 +460,8 @@ def symbolic_attractor_test(
                 )
 
             break
+
+        force_forward_growth = not progress_made
 
     if sd.config["debug"]:
         print(f"[{node_id}] > Reachability completed with {reach_set}.")
